@@ -11,7 +11,7 @@ import json, os
 from . import lib
 
 EVENTS = ["MakeFan", "SetFan", "ApplyEff", "ApplyGeo", "ApplyBlock", "FanSums", "IterEff", "IterGeo", "IterBlock", "KLStep",
-          "DetPair", "SetDetPair", "ProjFanSums", "EffFanSums", "IterEffNoModel", "Abort"]
+          "DetPair", "SetDetPair", "ProjFanSums", "EffFanSums", "IterEffNoModel", "MLE", "MLEStep", "Abort"]
 MUST = [e for e in EVENTS if e != "Abort"]
 
 
@@ -54,7 +54,8 @@ def run(ctx):
         ctx.add_mc(rg, "Gen_MLNorm (configurations and geometric classes)")
         exe = lib.build_driver("c20_mlnorm")
         t = os.path.join(ctx.work, "replay.ndjson")
-        lib.run_driver(exe, ["replay", gen, t], env=env, timeout=1200)
+        # thorough: all option sets (geometric / block step on / off, 1-4 outer iterations) of the whole estimation function
+        lib.run_driver(exe, ["replay" if q else "replayfull", gen, t], env=env, timeout=1200)
         # block factors on a fan that contains pairs of crystals of one block (known finding C20-block-samepair)
         t2 = os.path.join(ctx.work, "samepair.ndjson")
         lib.run_driver(exe, ["samepair", t2], env=env, timeout=600)
@@ -99,7 +100,8 @@ def run(ctx):
             elif cid is not None:
                 if rec["e"] in count:
                     count[rec["e"]] += 1
-                ctx.nontrivial(str(cid) + rec["e"] + str(rec.get("apply", "")) + str(rec.get("src", "")) + str(rec.get("it", "")) + str(rec.get("seg", "")) + str(rec.get("ax", "")))
+                ctx.nontrivial(str(cid) + rec["e"] + str(rec.get("apply", "")) + str(rec.get("src", "")) + str(rec.get("it", "")) + str(rec.get("seg", "")) + str(rec.get("ax", "")) +
+                               str(rec.get("kind", "")) + str(rec.get("j", "")) + str([rec.get(k) for k in ("exact", "doGeo", "doBlock", "niter", "neff")] if rec["e"] == "MLE" else ""))
         if at is not None or not ok:
             ctx.violation("trace not consumed (line %s)" % at, p)
             continue
@@ -128,5 +130,6 @@ def run(ctx):
         "virtual crystals exist only for predefined scanner types: generated scanners with gaps are resized Siemens mMR / ECAT 1080 objects (one virtual crystal per block)",
         "fan size after gap removal smaller than the number of physical detectors, block periods dividing the fan data (documented preconditions of FanProjData / GeoData3D)"]
     return ctx.finish(rule="one evaluation = one recorded call of a function of stir/ML_norm.h (conversion to / from fan data, apply / un-apply of "
-                      "efficiencies, geometric and block factors, fan sums, one ML update, one KL evaluation) with all arguments and results, explained by "
+                      "efficiencies, geometric and block factors, fan sums, one ML update, one KL evaluation, one call of the whole estimation function or "
+                      "the state it wrote after one component step) with all arguments and results, explained by "
                       "TLC; distinct_nontrivial = distinct (configuration, kind of call, arguments' register) combinations")
